@@ -16,6 +16,8 @@ def mix(ctx, n_generic, n_susp, n_over, n_oom, n_par, laws=("const",), bias=None
             yield gen_e.gen_oversell(s + 200000 + i, drv)
         for i in range(n_over // 3):
             yield gen_e.gen_suspend_oversell(s + 250000 + i, drv)
+        for i in range(max(n_over // 10, 3) if n_over else 0):
+            yield gen_e.gen_opcount_midbatch(s + 270000 + i, drv)
         for i in range(n_oom):
             yield gen_e.gen_oom(s + 300000 + i, drv, over=oom_over if i % 4 else False)
         for i in range(max(n_oom // 4, 1) if n_oom else 0):
@@ -30,6 +32,10 @@ def mix(ctx, n_generic, n_susp, n_over, n_oom, n_par, laws=("const",), bias=None
             yield gen_e.gen_drain_during_writeout(s + 170000 + i, drv)
         for i in range(max(n_susp // 8, 2) if n_susp else 0):
             yield gen_e.gen_suspend_overcommitted(s + 180000 + i, drv)
+        for i in range(max(n_susp // 16, 3) if n_susp else 0):
+            yield gen_e.gen_opcount_midbatch(s + 190000 + i, drv, suspend_it=True)
         for i in range(n_par):
             yield gen_e.gen_parents(s + 400000 + i, drv)
+        for i in range(max(n_par // 10, 3) if n_par else 0):
+            yield gen_e.gen_unrelated_branch_completes(s + 450000 + i, drv)
     return make
